@@ -1460,6 +1460,16 @@ fn main() {
                         Err(v) => Err(format!("Err({:?}) after 50 iterations although the iterate is the correctly rounded root (8192^(1/2) = {})", v.vec, 8192f64.sqrt())),
                     }
                 })),
+                ("step-criterion-unattainable Newton<f64> x^2 = 1e9 tol 1e-12".to_string(), Box::new(|| {
+                    // fifth bug hunt, the scalar counterpart: |dx| <= tol is purely absolute; half an ulp of the root 31622.77.. is 1.8e-12
+                    let mut nw = Newton::<f64>::new(31000.0);
+                    nw.tolerance(1e-12);
+                    nw.iterations(50);
+                    match nw.solve(&|x: f64| x * x - 1e9) {
+                        Ok(_) => Ok(()),
+                        Err(v) => Err(format!("Err({:?}) after 50 iterations although the iterate is the correctly rounded root ({})", v, 1e9f64.sqrt())),
+                    }
+                })),
                 ("residual-criterion-ill-conditioned Newton<Vec64> exp(x) = 1e-8 from root + 0.5".to_string(), Box::new(|| {
                     let root = (1e-8f64).ln();
                     let nw = Newton::<Vec64>::new(Vector::create(vec![root + 0.5]));
